@@ -42,6 +42,7 @@ contract(P + "TypeRewriter.make_container_type", props=["C07"], theories=TH, par
          ensures={"post:def": "result is subscript(container_type, element)"})
 contract(P + "TypeRewriter.make_anonymous_typed_dict", props=["C07"], theories=TH,
          params={"self": "Rewriter", "required_fields": "Dict[str,Ty]", "optional_fields": "Dict[str,Ty]"}, result="Ty",
+         requires={"disjoint": "forall(required_fields, lambda key: not has(optional_fields, key))"},
          ensures={"post:def": "result is TD_(ite(required_fields is None or len(required_fields) == 0, EMPTY_DICT_, required_fields),"
                               " ite(optional_fields is None or len(optional_fields) == 0, EMPTY_DICT_, optional_fields))"})
 
